@@ -158,6 +158,7 @@ func (t *Topic) DeleteExistingChannel(channelName string) error {
 	// to enforce ordering
 	channel.Delete()
 
+	verifPoint("chan.delete.beforeUnlink")
 	t.Lock()
 	delete(t.channelMap, channelName)
 	numChannels := len(t.channelMap)
@@ -183,6 +184,7 @@ func (t *Topic) PutMessage(m *Message) error {
 	if atomic.LoadInt32(&t.exitFlag) == 1 {
 		return errors.New("exiting")
 	}
+	verifPoint("topic.put.afterExitCheck")
 	err := t.put(m)
 	if err != nil {
 		return err
@@ -200,6 +202,7 @@ func (t *Topic) PutMessages(msgs []*Message) error {
 		return errors.New("exiting")
 	}
 
+	verifPoint("topic.put.afterExitCheck")
 	messageTotalBytes := 0
 
 	for i, m := range msgs {
@@ -364,6 +367,7 @@ func (t *Topic) exit(deleted bool) error {
 		// since we are explicitly deleting a topic (not just at system exit time)
 		// de-register this from the lookupd
 		t.nsqd.Notify(t, !t.ephemeral)
+		verifPoint("topic.delete.afterNotify")
 	} else {
 		t.nsqd.logf(LOG_INFO, "TOPIC(%s): closing", t.name)
 	}
@@ -397,6 +401,7 @@ func (t *Topic) exit(deleted bool) error {
 	}
 	t.RUnlock()
 
+	verifPoint("topic.exit.beforeFlush")
 	// write anything leftover to disk
 	t.flush()
 	return t.backend.Close()
